@@ -34,26 +34,6 @@ def contains_name(v, idents):
     return False
 
 
-def m_cl22_name_leak(v, params):
-    # *standard-cl-22*: the front-end optimiser returns the *name* of a variable (its bytes) instead of its value
-    if not any(b.startswith("cl22") for b in v["builds"]):
-        return False
-    for b in v["builds"]:
-        if not b.startswith("cl22"):
-            continue
-        for o in v["observed"].get(b, []):
-            if o[0] == "ok" and contains_name(o[1], identifiers(v["case"])):
-                return True
-    return False
-
-
-def m_at_pattern_nested_let(v, params):
-    # a second-level let / let* / assign / lambda (or a let inside an inline function) in the scope of an
-    # (@ name pattern) parameter refers to the wrong values in every modern dialect
-    f = feats(v["case"])
-    return f.get("at_pattern") and (f.get("lets") or f.get("assign") or f.get("lambda"))
-
-
 def m_legacy_zero_leading(v, params):
     # legacy integer mode (cl21, strict-cl21, cl22, cl23): a zero-leading-byte literal (0x00, 0x0006, 0xff80) is
     # renumbered by the optimiser / constant folder (0x00 -> nil, 0x0006 -> 6)
@@ -64,12 +44,6 @@ def m_legacy_zero_leading(v, params):
 def source_hash(case):
     import hashlib
     return hashlib.sha1(case["source"].encode()).hexdigest()[:16]
-
-
-def m_cl22_listed(v, params):
-    # other miscompilations of *standard-cl-22* on the fixed (seed independent) corpus, listed one by one
-    return all(b.startswith("cl22") for b in v["builds"] if b != "cl21" and b != "cl23") and \
-        any(b.startswith("cl22") for b in v["builds"]) and source_hash(v["case"]) in params["sources"]
 
 
 def m_macro_if_cl23(v, params):
@@ -85,8 +59,7 @@ def m_macro_if_cl23(v, params):
     return has_if and failing
 
 
-MATCHERS = {"macro_if_cl23": m_macro_if_cl23, "cl22_listed": m_cl22_listed, "cl22_name_leak": m_cl22_name_leak, "at_pattern_nested_let": m_at_pattern_nested_let,
-            "legacy_zero_leading": m_legacy_zero_leading}
+MATCHERS = {"macro_if_cl23": m_macro_if_cl23, "legacy_zero_leading": m_legacy_zero_leading}
 
 
 def drive(acc, tag, n, envs, profile, builds, salt=None, fixed_seed=None):
